@@ -45,7 +45,7 @@ def check(src, rep):
     rep.not_decided = NOT_DECIDED
     rep.assumptions = ["cwcwidth.wcwidth / wcswidth agree with the `wcwidth` package on the catalogue's alphabet (narrow ASCII, U+FF25 wide, U+0301 combining)"]
     rep.trusted_base = ["CPython ast", "sa/consteval.py", "sa/absint.py", "sa/objinterp.py", "the wcwidth package"]
-    it = new_interp(src)
+    it = new_interp(src, check_views=True)
     f = src.func("formatstring", "FmtStr.width_aware_splitlines")
     maxlen = 6 if rep.tier == "thorough" else 5
     jobs = []
@@ -98,6 +98,9 @@ def check(src, rep):
             return ("S2-nothing-lost-nothing-reordered", desc, "raises %s while producing the lines" % nm)
         if not all(isinstance(x, Obj) and x.cls == "FmtStr" for x in pieces):
             return ("S2-nothing-lost-nothing-reordered", desc, "gives %s" % (pieces,))
+        why = it._views(pieces)
+        if why is not None:
+            return ("S2-nothing-lost-nothing-reordered", desc, "a line of %s" % why.replace("the result", "the result", 1))
         lines = [cells(runs_of(x)) for x in pieces]
         ltxt = ["".join(c for c, _ in ln) for ln in lines]
         for i, ln in enumerate(ltxt):
